@@ -296,6 +296,10 @@ func (m *Machine) Exec(op Op) (Event, error) {
 		ev.InLen = b.Len()
 		var ret any
 		var herr error
+		var ms0, ms1 runtime.MemStats
+		if op.Meter {
+			runtime.ReadMemStats(&ms0)
+		}
 		ev.Res, ev.Err = guarded(func() error {
 			r, err := ExecPrim(b, op.Fn, op.Args)
 			if he, ok := err.(HarnessError); ok {
@@ -305,6 +309,10 @@ func (m *Machine) Exec(op Op) (Event, error) {
 			ret = r
 			return err
 		})
+		if op.Meter {
+			runtime.ReadMemStats(&ms1)
+			ev.Alloc = int(ms1.TotalAlloc - ms0.TotalAlloc)
+		}
 		if herr != nil {
 			return ev, herr
 		}
